@@ -197,6 +197,14 @@ def run(ctx):
     put(ctx, "gen_big.cfg", cfg_text(dict(REAL, Kinds='{"writer"}', DataLens="{1025, 1040, 1041, 1500, 2049, 3000, 4999}", Reqs="{9999}"), props=False, view=False, envout=True))
     r = ctx.tlc("PadStreamImpl", "gen_big.cfg", workers=1, simulate="num=%d" % (200 if thorough else 60), depth=400, count=False, timeout=1500)
     er += markers(r["out"], "ENV")
+    # a source that drips: long inputs delivered 8 bytes at a time with zero-byte answers in between (hundreds of empty reads in
+    # all, never more than MaxZero in a row) - the reader and the encrypting helper must simply carry on
+    put(ctx, "gen_drip.cfg", cfg_text(dict(REAL, Kinds='{"reader", "enc"}', DataLens="{1700, 3001}", SrcKs="{0, 8}", Reqs="{16, 1024}"), props=False, view=False, envout=True))
+    r = ctx.tlc("PadStreamImpl", "gen_drip.cfg", workers=1, simulate="num=%d" % (60 if thorough else 12), depth=4000, count=False, timeout=1500)
+    drip = markers(r["out"], "ENV")
+    nz = max([sum(1 for o in e["ops"] if o.get("op") == "src" and o.get("k") == 0) for e in drip] or [0])
+    er += drip
+    ctx.cov["dripping_source_max_empty_reads"] = nz
     if len(es) < 2 * nsmall or len(er) < 2 * nreal:
         raise Infra("too few environments generated: %d small, %d real" % (len(es), len(er)))
     model = {}
